@@ -1677,8 +1677,17 @@ std::ostream& expression_t::print(std::ostream& os, bool old) const
         os << "X(";
         get(0).print(os, old) << ")";
         break;
-    case SPAWN: os << "SPAWN"; break;
-    case EXIT: os << "EXIT"; break;
+    case SPAWN:
+        os << "spawn ";
+        get(0).print(os, old) << "(";
+        for (uint32_t i = 1; i < get_size(); ++i) {
+            if (i > 1)
+                os << ", ";
+            get(i).print(os, old);
+        }
+        os << ")";
+        break;
+    case EXIT: os << "exit()"; break;
     case NUMOF:
         os << "numOf(";
         get(0).print(os, old) << ")";
